@@ -1,5 +1,6 @@
 import SgModel.Lemmas.SnapImport
 import SgModel.Lemmas.SnapIso
+import SgModel.Lemmas.SnapRollback
 /-!
 # C13 — a failed snapshot import leaves the store unchanged
 
@@ -17,13 +18,15 @@ Full statement of the property on the model (kept visible; only parts of it are 
       | (st', some _) => some st' = mergeSpec ks hdr st lines
       | (st', none)   => logical st' = logical st ∧ lidxOk st'
 
-Proved below: the success half in full (`C13_success_is_merge_spec`); the failure half for
-imports **without dedup keys** at the level of the fold invariant is *not* proved here — the
-failure half is established differentially (the executable specification `specImport` is
-evaluated on the real store for every explored truncation / corruption) and on the concrete
-witnesses below.  What is missing for the general failure half: an invariant relating the
-undo journal to the original store through the label index up to reordering
-(`lidxRemove ∘ lidxInsert` is the identity only extensionally), ≈ 300 lines.
+Proved below: the success half in full (`C13_success_is_merge_spec`), and the failure half
+**for imports without dedup keys** (`C13_failed_import_without_dedup_restores_partial`: for
+every store and every line sequence the rollback gives back the original logical graph).
+With dedup keys the failure half (the undo journal of the merge path) is established
+differentially — the executable specification `specImport` is evaluated on the real store
+for every explored truncation / corruption — and on the concrete witnesses below.  What is
+missing for the general case: an invariant relating the undo journal to the original store
+through the label index up to reordering (`lidxRemove ∘ lidxInsert` is the identity only
+extensionally), and the label-index half (`lidxOk`) of the failure case.
 -/
 namespace SgModel.SnapJson
 
@@ -35,6 +38,25 @@ theorem C13_success_is_merge_spec (ks hdr : List Str) (st : St) (lines : List Li
     mergeSpec ks hdr st lines = some st' := by
   unfold mergeSpec
   rw [import_ok_eq_mergeSpec false ks hdr st lines st' stats h]
+
+/-- **Failure half, no dedup keys**: for every well-formed store (node ids below the allocation
+counter, relationships between existing nodes) and **every** line sequence — every truncation
+point, every corruption — if the import fails, the store it leaves has the same logical graph
+(nodes in order with labels and merged properties, relationships, hierarchy declarations) as
+before.  `_partial`: without dedup keys, and without the label-index clause. -/
+theorem C13_failed_import_without_dedup_restores_partial (hdr : List Str) (st : St)
+    (lines : List Line) (hwf : StoreWF st)
+    (hfail : (importLines false true [] hdr st lines).2 = none) :
+    logical (importLines false true [] hdr st lines).1 = logical st := by
+  have hinv := ndinv_fold (st0 := st) lines { st := st, dedup := [] } (ndinv_init st)
+  unfold importLines at hfail ⊢
+  simp only [List.isEmpty_nil, ↓reduceIte] at hfail ⊢
+  cases hf : foldLines false true [] { st := st, dedup := [] } lines with
+  | mk s ok =>
+    rw [hf] at hinv hfail
+    cases ok with
+    | true => exact absurd hfail (by intro h; cases h)
+    | false => exact rollback_no_dedup hwf hinv
 
 /-- The import fails exactly when some line cannot be applied (unreadable line, ill-typed
 record, relationship to an unknown node id); what is returned then is the rolled-back store. -/
